@@ -623,3 +623,50 @@ def rec6(ctx):
                               'a frame that passed its CRC can make the record reader return an error (at %s): the valid entry it belongs to is dropped' % (b.loc(bad[0]['point']) if bad else '-'))
     if n == 0:
         ctx.missing('frame-result', 'no switch on the frame reader result in the record reader')
+
+
+@rule('FR8b', ['C08', 'C02', 'C12', 'C18'], floor=3, template='error-not-dropped')
+def fr8b(ctx):
+    """Inside the reader stack a Corruption reported by a lower layer is never swallowed: it is propagated
+    (only the replay loop, which knows nothing is being assembled across it, may skip it)."""
+    n = 0
+    for b in ctx.f.bodies.values():
+        if b.generic_dup() or not (b.path.startswith(FRD) or b.path.startswith(RR)):
+            continue
+        for cs in b.calls:
+            dl = cs.dest_local()
+            if cs.node is None or dl is None or not b.local_ty(dl).endswith('frame::reader::ReadFrameError>'):
+                continue
+            n += 1
+            key = '%s:%s' % (b.path, cs.path.split('::')[-1])
+            known = alias_paths(b, dl)
+            starts = []
+            for (bi, pl, adt, edges) in b.discr_switches():
+                for path in place_path(known, pl):
+                    if path == (('v', 'Err'), ('f', '0')) and 'Corruption' in edges:
+                        starts.append(edges['Corruption'][1])
+            if not starts and any(e['kind'] == 'err_prop' and e.get('call') is cs for e in b.exits()):
+                ctx.ok(key, where(b, cs.point), '`?` propagates a Corruption from the lower layer')
+                continue
+            if not starts:
+                for (bi, pl, adt, edges) in b.discr_switches():
+                    for path in place_path(known, pl):
+                        if path == () and 'Err' in edges:
+                            starts.append(edges['Err'][1])
+            if dl == 0:
+                ctx.ok(key, where(b, cs.point), 'result returned as is')
+                continue
+            bad = None
+            for s_ in starts:
+                r = b.reach([s_])
+                if cs.point in r:
+                    bad = 'goes round and calls the lower layer again'
+                for e in b.exits():
+                    if e['point'] in r and e['kind'] in ('ok', 'some', 'none', 'value', 'forward'):
+                        bad = 'reaches a successful return (%s)' % b.loc(e['point'])
+                    if e['point'] in r and e['kind'] == 'err' and e.get('variant') not in ('Corruption',):
+                        bad = 'is converted into %s' % e.get('variant')
+            ctx.check(bool(starts) and bad is None, key, where(b, cs.point), 'the Corruption arm only leads to Err(Corruption)',
+                      'a Corruption reported by the lower reader layer is swallowed here: the arm %s, so the record reader is never told that frames were skipped and splices the open entry with unrelated frames' % (bad or 'is missing'))
+    if n < 3:
+        ctx.missing('sites', 'expected >= 3 calls returning Result<_, ReadFrameError> in the reader stack, found %d' % n)
